@@ -50,7 +50,23 @@ def make(rnd, k):
             driver += [['gennew', j, 'f', a, kw]] + [['next', j]] * (len(body) // 2 + 1)
         else:
             driver.append(['call', 'f', a, kw])
-    return {'funs': [{'name': 'f', 'kind': kind, 'sig': fsig, 'stack': stack, 'body': body}], 'driver': driver}
+    funs = [{'name': 'f', 'kind': kind, 'sig': fsig, 'stack': stack, 'body': body}]
+    if any(p[2] is not None and 'i' in p[2] for p in fsig) and rnd.random() < .25:
+        # a second function made from the same `def` (it shares the code object) with other default values, as a factory would make it
+        import copy
+        gsig = [[p[0], p[1], ({'i': p[2]['i'] + 7} if (p[2] is not None and 'i' in p[2]) else p[2])] for p in fsig]
+        gstack = copy.deepcopy(stack)
+        for it in gstack:
+            it[1]['id'] = ids()
+            if [p[0] for p in it[1]['sig']] not in (['_'], ['result']):
+                it[1]['sig'] = [[p[0], p[1], next((q[2] for q in gsig if q[0] == p[0]), p[2])] for p in it[1]['sig']]
+        funs.append({'name': 'g', 'kind': kind, 'sig': gsig, 'stack': gstack, 'body': body, 'clone_of': 'f'})
+        extra = []
+        for j, a in enumerate([x for x in driver if x[0] in ('call', 'gennew')]):
+            if a[0] == 'call': extra.append(['call', 'g', a[2], a[3]])
+            else: extra += [['gennew', 20 + j, 'g', a[3], a[4]]] + [['next', 20 + j]] * (len(body) // 2 + 1)
+        driver += extra
+    return {'funs': funs, 'driver': driver}
 
 
 def to_json(v):
@@ -100,11 +116,20 @@ def monitor(sc, obs):
     acts = O.split(obs)
     if acts is None:
         return [('harness/observation error: ' + str(obs)[:200], None)]
-    f = sc['funs'][0]
+    owner = {a[1]: a[2] for a in sc['driver'] if a[0] == 'gennew'}
+    out = []
+    for f in sc['funs']:
+        mine = [(a, act) for a, act in zip(sc['driver'], acts)
+                if (a[0] == 'call' and a[1] == f['name']) or (a[0] == 'gennew' and a[2] == f['name']) or (a[0] == 'next' and owner.get(a[1]) == f['name'])]
+        out += monitor_one(f, mine)
+    return out
+
+
+def monitor_one(f, pairs):
     pres = [it[1] for it in f['stack'] if it[0] == 'pre']
     out = []
     gens = {}      # var -> dict(args, kws, binding, idx, dead)
-    for a, act in zip(sc['driver'], acts):
+    for a, act in pairs:
         if a[0] == 'gennew':
             gens[a[1]] = {'args': a[3], 'kws': a[4], 'idx': 0, 'dead': False, 'started': False}
             continue
